@@ -66,17 +66,18 @@ class C21(Check):
                   "target' = window of the source at the target displacement and every other entry unchanged; a refused call leaves "
                   "the target alone. Partial: the model is tied to the code by observation (T-obs): the real parsec_redistribute "
                   "runs both JDFs through the real runtime on 1..4 MPI ranks with different process grids / k-cyclicity for source "
-                  "and target, the gathered target is compared entry by entry with the extracted model; getsize and "
-                  "redistribute_pair_num_cols are also called directly (T-seq) over a parameter box.")
+                  "and target, the gathered target is compared entry by entry with the extracted model; getsize, "
+                  "redistribute_pair_num_cols and CORE_redistribute_update (static function of the C generated from redistribute.jdf, "
+                  "included by the harness) are also called directly (T-seq) over parameter boxes.")
     level_note = ("Trusted: Coq kernel, extraction, harness (fills recognisable values, gathers with MPI_Reduce), mpiexec/Open MPI, the "
                   "PaRSEC runtime executing the JDF dataflow (C01/C05), the datatype engine for remote sub-blocks (C19). Not modelled: "
                   "ghost radius R != 0, LAPACK storage, tabular / SBC descriptors, the DTD variant, GPU memory.")
     technique = ("Coq proof (partition of the window by the tile-decomposition arithmetic, for all sizes and displacements) + "
                  "differential run of the real parsec_redistribute on 1..4 MPI ranks against the extracted model")
     rule = ("'run': random and directed (matrix <= 40, tiles 1..8 differing between source and target, unaligned displacements, "
-            "windows touching borders / 1x1 / full matrix / inside one tile, aligned same-tile cases for the optimized path and "
+            "windows touching borders / 1x1 / full matrix / inside one tile, wide target tiles over narrow source tiles, aligned same-tile cases for the optimized path and "
             "near misses of its condition, refused calls), on 1, 2, 3, 4 ranks with different PxQ grids and k-cyclicity; "
-            "'gs'/'nc': boxes of getsize / pair_num_cols arguments. Non-trivial = accepted 'run' case; distinct = distinct case text")
+            "'gs'/'nc'/'upd': boxes of getsize / pair_num_cols / CORE_redistribute_update arguments. Non-trivial = accepted 'run' case; distinct = distinct case text")
     trusted = ("harness/h_redist.c: source(i,j)=(i+1)*1000+j, target=-(...) patterns; every rank contributes its tiles to a dense image, "
                "MPI_Reduce(SUM) to rank 0; one mpiexec job per rank count runs all cases of that count (restarted after a crash or hang)",)
     assumptions = ("the PaRSEC runtime executes every task of the two JDFs once with the dataflow they declare (C01, C05) and MPI "
@@ -94,12 +95,16 @@ class C21(Check):
         mbY, nbY, mbT, nbT = (r.range(1, 8) for _ in range(4))
         if kind in ("rs", "near") or (kind == "any" and r.chance(1, 5)):
             mbT, nbT = mbY, nbY
+        if kind == "bars":   # target tiles spanning 3+ source tiles: the N/S/W/E/I pieces of Send/Update
+            mbY, nbY, mbT, nbT = r.range(1, 2), r.range(1, 2), r.range(5, 8), r.range(5, 8)
         MY, NY, MT, NT = (r.pick([r.range(1, 40), r.range(1, 12), r.range(20, 40)]) for _ in range(4))
         p = dict(R=R, PY=PY, kpY=kpY, kqY=kqY, PT=PT, kpT=kpT, kqT=kqT, MY=MY, NY=NY, mbY=mbY, nbY=nbY,
                  MT=MT, NT=NT, mbT=mbT, nbT=nbT)
         pMY, pNY, pMT, pNT = padded(p)
         mr, mc = min(pMY, pMT), min(pNY, pNT)
         shape = r.pick(["rand", "rand", "rand", "one", "full", "row", "col", "intile"]) if kind == "any" else "rand"
+        if kind == "bars":
+            shape = r.pick(["rand", "full"])
         if shape == "one":
             sr = sc = 1
         elif shape == "full":
@@ -157,7 +162,9 @@ class C21(Check):
     def run_cases(self, r, counts):
         out = []
         for R, n in counts:
-            kinds = ["any"] * 6 + ["rs", "rs", "near", "bad"]
+            kinds = ["any"] * 6 + ["rs", "rs", "near", "bad", "bars", "bars"]
+            if R > 1:   # the packed remote pieces (CORE_redistribute_send) exist only between ranks
+                kinds = ["any"] * 5 + ["rs", "near", "bad"] + ["bars"] * 4
             for i in range(n):
                 out.append(self.rand_run(r, R, kinds[i % len(kinds)]))
         return out
@@ -185,7 +192,18 @@ class C21(Check):
                     for kqY in (1, 2, 3):
                         for kqT in (1, 2, 3):
                             out.append("nc %d %d %d %d %d %d" % (R, PY, kqY, PT, kqT, r.range(1, 40)))
-        counts = [(1, 40), (2, 30), (3, 10), (4, 24)] if quick else [(1, 600), (2, 400), (3, 150), (4, 300)]
+        # T-seq: CORE_redistribute_update (generated from redistribute.jdf) against upd_seg x upd_seg,
+        # also on argument combinations that no task of the JDF produces
+        for _ in range(1500 if quick else 20000):
+            a = []
+            for _dim in range(2):
+                ys = r.range(0, 2)
+                ye = ys + r.pick([0, 0, 1, 2, 3])
+                a.append((r.pick([r.range(ys, ye)] * 10 + [ys - 1, ye + 1]), ys, ye, r.range(0, 3), r.range(1, 4), r.range(1, 4), r.range(1, 4), r.range(0, 3)))
+            (my, mys, mye, i0, tlr, brr, mb, offr), (ny, nys, nye, j0, tlc, brc, nb, offc) = a
+            out.append("upd %d %d  %d %d %d %d  %d %d  %d %d %d %d  %d %d  %d %d  %d" % (
+                my, ny, mys, mye, nys, nye, i0, j0, tlr, tlc, brr, brc, mb, nb, offr, offc, r.below(2)))
+        counts = [(1, 40), (2, 40), (3, 12), (4, 30)] if quick else [(1, 600), (2, 500), (3, 150), (4, 400)]
         out += self.run_cases(r, counts)
         return out
 
@@ -218,7 +236,7 @@ class C21(Check):
         return case
 
     def dist(self, cases):
-        d = {"gs": 0, "nc": 0, "run_refused": 0, "run_reshuffle": 0, "run_general": 0}
+        d = {"gs": 0, "nc": 0, "upd": 0, "run_refused": 0, "run_reshuffle": 0, "run_general": 0}
         ranks = {}
         for c in cases:
             p = parse_run(c)
@@ -241,8 +259,8 @@ class C21(Check):
         if p is None:
             return None
         ok = valid(p)
-        if obs.startswith("<skip>"):
-            return None
+        if obs.startswith("<skip>") or obs.startswith("<impl not run") or obs.startswith("<impl missing"):
+            return None    # nothing was observed
         if obs.startswith("<"):
             return ("the redistribution did not complete: " + obs[:120]) if ok else None
         try:
@@ -295,26 +313,35 @@ class C21(Check):
             if os.path.exists(of):
                 os.remove(of)
             cmd = ["mpiexec", "--allow-run-as-root", "--oversubscribe", "-n", str(R), self.hbin(), cf, of, threads]
-            p = subprocess.Popen(cmd, stdout=subprocess.DEVNULL, stderr=subprocess.PIPE, start_new_session=True)
+            ef = cf + ".err"
+            with open(ef, "wb") as efh:
+                p = subprocess.Popen(cmd, stdout=subprocess.DEVNULL, stderr=efh, start_new_session=True)
             last, seen, why = time.time(), 0, None
-            while p.poll() is None:
-                time.sleep(0.2)
-                try:
-                    n = sum(1 for _ in open(of))
-                except OSError:
-                    n = 0
-                if n != seen:
-                    seen, last = n, time.time()
-                elif time.time() - last > self.stall_limit() + (30 if seen == 0 else 0):
-                    why = "no progress for %ds" % self.stall_limit()
+            try:
+                while p.poll() is None:
+                    time.sleep(0.2)
+                    try:
+                        n = sum(1 for _ in open(of))
+                    except OSError:
+                        n = 0
+                    if n != seen:
+                        seen, last = n, time.time()
+                    elif time.time() - last > self.stall_limit() + (30 if seen == 0 else 0):
+                        why = "no progress for %ds" % self.stall_limit()
+                        break
+            finally:
+                if p.poll() is None:
                     try:
                         os.killpg(p.pid, signal.SIGKILL)
                     except OSError:
                         pass
-                    break
             try:
-                _, err = p.communicate(timeout=20)
+                p.wait(timeout=20)
             except Exception:
+                pass
+            try:
+                err = open(ef, "rb").read()[-4000:]
+            except OSError:
                 err = b""
             try:
                 got = [l.rstrip("\n") for l in open(of)]
@@ -325,7 +352,8 @@ class C21(Check):
             rest = rest[len(got):]
             if rest:
                 # the case after the last line is the one that crashed or hung
-                tail = (err or b"").decode("utf8", "replace").strip().replace("\n", " ")[-160:]
+                tail = "".join(ch for ch in (err or b"").decode("ascii", "replace").replace("\n", " ")
+                               if " " <= ch <= "~").strip()[-160:]
                 res.append("<impl %s rc=%s: %s>" % (why or "crash", p.returncode, tail))
                 rest = rest[1:]
             attempt += 1
